@@ -192,15 +192,22 @@ def check(prog, rep, tier):
     wantw = mcall("ceil", ("bin", "/", C(2), err))
     wantd = mcall("ceil", ("bin", "/", ("un", "-", mcall("log", ("bin", "-", C(1), conf))), C(LN2)))
     seen = False
+    done = set()
     for p in ips:
         w = p.fields.get((SELF, "_CountMinSketch__width"))
         d = p.fields.get((SELF, "_CountMinSketch__depth"))
         if w is None or d is None:
             continue
-        uses = {n_[1] for n_ in walk(w) if n_[0] == "p"} | {n_[1] for n_ in walk(d) if n_[0] == "p"}
+        # a path that keeps the caller's accuracy pair (either of them ends up in the error-rate / confidence fields, or feeds a
+        # dimension) promises that accuracy: BOTH dimensions must then come from the pair by the documented formulas
+        e_ = p.fields.get((SELF, "_CountMinSketch__error_rate"), C(None))
+        c_ = p.fields.get((SELF, "_CountMinSketch__confidence"), C(None))
+        uses = {n_[1] for v_ in (w, d, e_, c_) for n_ in walk(v_) if n_[0] == "p"}
         if "error_rate" in uses or "confidence" in uses:
-            if seen:
+            k_ = (canon(strip_epochs(w)), canon(strip_epochs(d)))
+            if k_ in done:
                 continue
+            done.add(k_)
             seen = True
             conform(rep, "C07.countmin-formula", "CountMinSketch.__init__", "width", wantw, w, init.where())
             conform(rep, "C07.countmin-formula", "CountMinSketch.__init__", "depth", wantd, d, init.where())
